@@ -41,6 +41,7 @@ extern int replay_assert_failed; extern const char *replay_target_assert;
 
 def _leaf_c(lhs):
     lhs = re.sub(r'\[(\d+)l?\]', r'[\1]', lhs)
+    lhs = re.sub(r'^GH_\.', '', lhs)   # fields of the ghost object are reached through their accessor macros
     return lhs
 
 def initial_values(trace, entry):
@@ -138,7 +139,7 @@ def _impl_seq(s):
     return s[:k + 1] + _impl(s[k + 1:])
 
 def to_native(expr, qhi, olds):
-    e = expr
+    e = re.sub(r'\bGH_\.(\w+)', r'\1', expr)   # ghost-object fields: use the accessor macros of drv_ghost.h
     # old()
     while True:
         k = e.find('__CPROVER_old')
